@@ -275,8 +275,11 @@ pub fn copy_dir(src: &Path, dst: &Path) {
         let to = dst.join(e.file_name());
         if e.file_type().unwrap().is_dir() {
             copy_dir(&e.path(), &to);
-        } else {
-            std::fs::copy(e.path(), to).unwrap();
+        } else if let Err(err) = std::fs::copy(e.path(), &to) {
+            // transient SQLite side files (-journal/-wal/-shm) may vanish while copying
+            if err.kind() != std::io::ErrorKind::NotFound {
+                panic!("copy {:?}: {err}", e.path());
+            }
         }
     }
 }
